@@ -20,7 +20,7 @@ impl Tracer {
         Tracer { out: std::io::BufWriter::new(std::fs::File::create(path).unwrap()), st: Value::Null, obs: Value::Null, lines: 0 }
     }
     /// `changed` = the chain may have changed since the last line (re-project), otherwise reuse
-    fn write(&mut self, tx: &Value, o: &Outcome, c: &Chain, cfg: &Cfg, changed: bool) {
+    fn write(&mut self, tx: &Value, o: &Outcome, c: &Chain, cfg: &Cfg, changed: bool) -> bool {
         if changed || self.st.is_null() {
             // a query of the contracts that fails (or panics) must not take the harness down: the state keeps its last
             // projection and the observation says that a public query did not answer
@@ -36,9 +36,24 @@ impl Tracer {
                 }
             }
         }
+        // TLC's integers are 32 bit: a state with a larger number cannot be validated; the caller ends the run there
+        if max_num(&self.st) > 1_500_000_000 {
+            self.st = Value::Null;
+            return false;
+        }
         let err = if o.err.contains("bank: zero amount") { "bank: zero amount".to_string() } else { o.err.clone() };
         writeln!(self.out, "{}", json!({"tx": tx, "ok": o.ok, "err": err, "fx": o.fx, "st": self.st, "obs": self.obs})).unwrap();
         self.lines += 1;
+        true
+    }
+}
+
+fn max_num(v: &Value) -> u64 {
+    match v {
+        Value::Number(n) => n.as_u64().unwrap_or(0),
+        Value::Array(a) => a.iter().map(max_num).max().unwrap_or(0),
+        Value::Object(o) => o.values().map(max_num).max().unwrap_or(0),
+        _ => 0,
     }
 }
 
@@ -176,7 +191,9 @@ fn main() {
                     let e = kinds.entry(kind.clone()).or_default();
                     e.0 += 1;
                     if o.ok { e.1 += 1; oks += 1; }
-                    tr.write(&tx, &o, &c, &rcfg, changed);
+                    if !tr.write(&tx, &o, &c, &rcfg, changed) {
+                        break;
+                    }
                     events += 1;
                     i += 1;
                     if probe_every > 0 && i % probe_every == 0 {
